@@ -11,9 +11,12 @@ def run(tier, seed):
     if tier == "thorough":
         # depth 3 on every class family representative, depth 2 on everything
         progs, stats = E.run_spec("programs", 2, starts, E.PARTNERS, "c10_thorough_d2", shards=14)
-        reps = ["sI3n", "D3", "TL3", "ITU3", "TF3n", "TF3fi", "DPD3f", "DND3", "DSQ3lu", "DSY3e", "SORT3", "EIG3", "EIG3p",
-                "BD3", "SBD3", "PBD3", "BR3", "LR3n", "LR3nc", "SLR3n", "PLR3p", "PLR3n", "PLR3nc", "PROD3", "DSQ1", "TF1p"]
-        p3, s3 = E.run_spec("programs", 3, reps, E.PARTNERS[:8], "c10_thorough_d3", shards=14)
+        reps = ["sI3n", "D3", "TL3", "ITU3", "TF3n", "TF3fi", "DPD3f", "DND3", "DSQ3lu", "SORT3", "EIG3", "EIG3p",
+                "BD3", "SBD3", "PBD3", "BR3", "LR3n", "LR3nc", "LR32pc", "SLR3n", "PLR3p", "PLR3n", "PLR3nc", "PLRI3",
+                "TFf3pu", "DSQ1", "TF1p"]
+        # (partners with small dyadic entries only: exact 32-bit rational arithmetic overflows otherwise)
+        p3, s3 = E.run_spec("programs", 3, reps, ["I3", "D3", "TL3", "DSQ3", "ORT3", "R32", "R23", "sI1n"],
+                            "c10_thorough_d3", shards=14)
         progs += [p for p in p3 if len(p["ops"]) == 3]
         stats = {k: stats[k] + s3[k] for k in stats}
     else:
